@@ -296,8 +296,8 @@ impl AdjacencyMap {
     @*/
 }
 
-// ---- C14: deterministic generators of AdjacencyMap that do not go through `empty` / `trivial` (see the report: those need
-// `From<rows>`, whose validation loop runs over the flat_map-based `arcs()`) ----
+// ---- C14: deterministic generators of AdjacencyMap (`empty` / `trivial` / `From<rows>` themselves are in unit map_ctor,
+// fragment units/inc/map_ctor_core.inc.rs) ----
 // defining arc predicates, each written from the property text (identical to units/inc/matrix_gen.inc.rs)
 
 /// complete(n) has all n(n-1) arcs: every ordered pair of distinct vertices
@@ -551,23 +551,26 @@ impl AdjacencyMap {
     @*/
 }
 
-// ---- C14, orders >= 2 only: circuit / cycle / path / star / complete ----
-// Each of these starts with `if order == 1 { return Self::trivial(); }`, and `trivial()` = `empty(1)` = `From<rows>`, which is out
-// of reach (its validation loop runs over the flat_map-based `arcs()`).  The stand-in below has the precondition `false`, so
-// NOTHING is assumed about the real `trivial`: the generators are verified under `order != 1` (order 0 panics), where that
-// branch is unreachable.  The case order == 1 is NOT covered.
-impl AdjacencyMap {
-    fn trivial() -> (r: Self)
-        requires false,
-    {
-        vpanic()
-    }
-
-    /*@fn impl=AdjacencyMap trait=Circuit name=circuit props=C14,C13
-    requires
-        order != 1,
+// ---- C14, every order >= 1: circuit / cycle / path / star / complete ----
+// Each of these starts with `if order == 1 { return Self::trivial(); }`.  `trivial()` = `empty(1)` = `From<rows>` are under
+// contract in unit map_ctor (fragment units/inc/map_ctor_core.inc.rs, imported by the units that include this fragment; it
+// rests on the assumed contract of `AdjacencyMap::arcs` in prelude/map_ctor_std.rs).  The order-1 branch is therefore verified
+// against the contract of the real `trivial` (one vertex, no arcs); order 0 panics.  Each arc predicate is empty at n = 1
+// (`lemma_mm_order1_no_arcs`), so the postconditions below state the C14 definition uniformly for every order >= 1.
+proof fn lemma_mm_order1_no_arcs()
     ensures
-        order >= 2,
+        forall|a: int, b: int| !#[trigger] circuit_arc(1, a, b),
+        forall|a: int, b: int| !#[trigger] cycle_arc(1, a, b),
+        forall|a: int, b: int| !#[trigger] path_arc(1, a, b),
+        forall|a: int, b: int| !#[trigger] star_arc(1, a, b),
+        forall|a: int, b: int| !#[trigger] complete_arc(1, a, b),
+{
+}
+
+impl AdjacencyMap {
+    /*@fn impl=AdjacencyMap trait=Circuit name=circuit props=C14,C13
+    ensures
+        order >= 1,
         r.wf(),
         r.ord() == order,
         forall|x: int| #[trigger] r.verts().contains(x) == (0 <= x < order),
@@ -602,10 +605,9 @@ impl AdjacencyMap {
     // cannot be allocated, but Verus does not model the allocation bound), so it is a precondition here (as for AdjacencyList).
     /*@fn impl=AdjacencyMap trait=Cycle name=cycle props=C14,C13
     requires
-        order != 1,
         order <= 0x7fff_ffff_ffff_ffff,
     ensures
-        order >= 2,
+        order >= 1,
         r.wf(),
         r.ord() == order,
         forall|x: int| #[trigger] r.verts().contains(x) == (0 <= x < order),
@@ -643,10 +645,8 @@ impl AdjacencyMap {
     @*/
 
     /*@fn impl=AdjacencyMap trait=Path name=path wrap=chain,fn:once props=C14,C13
-    requires
-        order != 1,
     ensures
-        order >= 2,
+        order >= 1,
         r.wf(),
         r.ord() == order,
         forall|x: int| #[trigger] r.verts().contains(x) == (0 <= x < order),
@@ -671,10 +671,8 @@ impl AdjacencyMap {
     @*/
 
     /*@fn impl=AdjacencyMap trait=Star name=star wrap=chain,fn:once props=C14,C13
-    requires
-        order != 1,
     ensures
-        order >= 2,
+        order >= 1,
         r.wf(),
         r.ord() == order,
         forall|x: int| #[trigger] r.verts().contains(x) == (0 <= x < order),
@@ -708,10 +706,8 @@ spec fn mm_complete_rows(m: BTreeMap<usize, BTreeSet<usize>>, n: int, upto: int)
 
 impl AdjacencyMap {
     /*@fn impl=AdjacencyMap trait=Complete name=complete props=C14,C13
-    requires
-        order != 1,
     ensures
-        order >= 2,
+        order >= 1,
         r.wf(),
         r.ord() == order,
         forall|x: int| #[trigger] r.verts().contains(x) == (0 <= x < order),
